@@ -284,13 +284,18 @@ class Run:
         self.resynced = False
 
     # -- bookkeeping -------------------------------------------------------
-    def viol(self, prop, cls, msg, fp, soft=False):
+    def viol(self, prop, cls, msg, fp, soft=False, cont=False):
         """Record a violation.  Hard violations end the run at once (the model
         is no longer in step with the object); soft ones (structural read-back
         checks, which do not touch the model) let the current operation finish
         its remaining checks first so that every property it breaks is seen."""
         if not any(v.key() == (prop, cls) for v in self.violations):
             self.violations.append(Violation(prop, cls, msg, fp))
+        if cont:
+            # the model is still in step (it never adopted the offending value): go on,
+            # later operations show the consequences under the other properties
+            self.resynced = True
+            return
         if not soft:
             raise _Stop()
 
@@ -545,7 +550,7 @@ class Run:
                 if now != m.border:
                     self.viol("C18", "C18/rejected-value-took-effect",
                               f"after rejected border = {value!r} the setting reads {now!r}, "
-                              f"was {m.border!r}", f"assign|border={value!r}")
+                              f"was {m.border!r}", f"assign|border={value!r}", cont=True)
             else:
                 if eff != m.border:
                     m.changed_since_compile = True
@@ -594,7 +599,7 @@ class Run:
             if now != getattr(m, field):
                 self.viol("C18", "C18/rejected-value-took-effect",
                           f"after rejected {attr} = {value!r} the setting reads {now!r}, "
-                          f"was {getattr(m, field)!r}", fp)
+                          f"was {getattr(m, field)!r}", fp, cont=True)
 
     def op_read_version(self, qr, m, op):
         r = self.ref(m.spec(("read_version",)))
